@@ -48,7 +48,13 @@ REQUEST     raw (bytes), ops_before, ops_after, timeout_ms, split_at + split_pau
 OPS         {"op": "update_key", guid, key, incarnation} {"op": "clear_key"}
             {"op": "set_rules", "endpoint": "wireserver|imds|hostga", "item": {...}|None}
             {"op": "fail_remove", "value": bool} {"op": "insert_audit", "port", "audit"} {"op": "remove_audit", "port"}
+            {"op": "wait_trace", "port", "lookups": n, "timeout_ms": 3000}  wait until the H1 trace shows n lookups for the
+              source port and a remove event for every lookup that found a record (= the accept processing is over)
             {"op": "clear_summary"} {"op": "sleep_ms", "ms"} {"op": "snapshot", "label"} (audit map + summaries now)
+            {"op": "kill_actor", "actor": "key_keeper"|"agent_status"}  needs scenario field killable: [actor, ...]:
+            that actor's task then lives on a runtime of its own, which the op shuts down; afterwards every call on
+            its handle returns Err (get_*_rules -> the handler's 500 "rules lookup failure"; increase_connection_count
+            -> 500).  With agent_status dead, result["summary"]["failed"/"ok"] are {"error": ...}.
 AUDIT       uid (logon id), pid ("self" = the driver, "helper" = a spawned `sleep`, or a number),
             is_admin (1/0), dest_ip, dest_port
 
